@@ -247,6 +247,32 @@ def store_menu(idx, v):
     operations, identifier edge cases."""
     m = []
     add = lambda label, item: m.append((label, item))
+    # every cipher x every block cipher mode (the backend runs only some combinations), with an
+    # IV of either block size, for Encrypt, Decrypt and DeriveKey by encryption (with/without data)
+    sk = idx["SymmetricKey/ACTIVE"]
+    la_ = [["Cryptographic Length", 128], ["Cryptographic Algorithm", "AES"]]
+    if tuple(v) >= (1, 2):
+        for al in ("DES", "TRIPLE_DES", "AES", "BLOWFISH", "CAMELLIA", "CAST5", "IDEA", "RC4", "RC2",
+                   "TWOFISH", "CHACHA20", "HMAC_SHA256", "RSA"):
+            for mo in MODES:
+                p_ = {"alg": al, "mode": mo}
+                if mo == "GCM":
+                    p_["tag_length"] = 16
+                for ivn in (8, 16):
+                    for op in ("Encrypt", "Decrypt"):
+                        it = {"op": op, "uid": sk, "params": dict(p_), "data": "00112233445566778899aabbccddeeff",
+                              "iv": "ab" * ivn}
+                        if mo == "GCM" and op == "Decrypt":
+                            it["tag"] = "ee" * 16
+                        add("%s/product-%s-%s-iv%d" % (op, al, mo, ivn), it)
+    for al in ("TRIPLE_DES", "AES", "BLOWFISH", "RC4", "CHACHA20"):
+        for mo in MODES:
+            for data in ("00112233445566778899aabbccddeeff", None, ""):
+                dp = {"params": {"alg": al, "mode": mo, "pad": "PKCS5"}, "iv": "ab" * (8 if al in ("TRIPLE_DES", "BLOWFISH") else 16)}
+                if data is not None:
+                    dp["data"] = data
+                add("DeriveKey/product-%s-%s-%s" % (al, mo, "nodata" if data is None else len(data) // 2),
+                    {"op": "DeriveKey", "uids": [sk], "method": "ENCRYPT", "attrs": la_, "dp": dp})
     # identifier edge cases for every object-addressing op
     for kind, u in (("destroyed", idx["destroyed"]), ("never", "9999"), ("absent", None),
                     ("nonnumeric", "abc"), ("empty", ""), ("other-owner", idx["bob"]), ("neg", "-1"),
